@@ -613,7 +613,7 @@ func (x *Exec) checkPost(u *Unit, e, entry *State, mk func(*State, bool) *CEnv, 
 	}
 	x.applySets(e, env, pc, n)
 	x.applyGSets(e, env, pc, n)
-	if u.Decl != nil && u.Lit == nil && u.Impl == nil {
+	if (u.Decl != nil && u.Lit == nil && u.Impl == nil) || u.Impl != nil {
 		x.checkFrame(e, entry, env, pc, n)
 	}
 	// panics_when is exact: a normal return means none of its conditions held at entry
